@@ -4,7 +4,10 @@ PROP = dict(
     case_type='C12.case', verdict='C12.verdict', explain='C12.model',
     rule='structured stream: random mount tables (1..15 mounts, parent/child and stacked mountpoints, 0..3 '
          'optional fields, path bytes incl. space/tab/newline/backslash/UTF-8/escape look-alikes, overlay options '
-         'in random order with extras and duplicates) rendered as the kernel renders them; every 5th case is a '
+         'in random order with extras and duplicates) rendered as the kernel renders them; every 6th table shows one '
+         'file system through mounts of related subtrees (subvolumes, binds of subdirectories: roots equal to, '
+         'below -- first component hidden, with blanks, ordinary --, string extensions of, above a subtree root) '
+         'and asks for the sources of each of them; every 5th case is a '
          'malformed mutation (correspondence only). Non-trivial: the text has an escape, an optional field, an '
          'overlay or a shadowing file system; distinct by the full mountinfo text',
     explanation='theorems: unescape(mangle s)=s for all byte strings; parse_line(render_line k)=view k; '
